@@ -110,6 +110,11 @@ func checkC20(c *Check) {
 			}
 		}
 	}
+	// a command that waits for ever does not end: locks and semaphore tokens are
+	// given back on every path and not held across a call that can take them again
+	c.Counts["blocking_resources"] = blockingResources(c, "RESOURCE-PAIR", "HELD-ACROSS-NESTING", scope)
+	c.Counts["goroutines_started_in_loops"] = goroutineLoopVars(c, "GOROUTINE-LOOPVAR", scope)
+	c.Counts["nesting_counters"] = counterPairs(c, "COUNTER-PAIR", scope) + saturatingCounters(c, "COUNTER-PAIR", scope)
 	nDead := deadErrors(c, "DEAD-ERROR", scope)
 	c.Counts["dead_error_assignments"] = nDead
 	c.Okf("DEAD-ERROR", "scan", "-", "%d reachable repository functions scanned for error results bound to a variable that is never read: %d found", len(scope), nDead)
